@@ -1229,27 +1229,27 @@ def confinement(ctx):
         v = strip(x)
         return isinstance(v, dict) and ((v.get('k') == 'var' and v['name'] in owners) or last_member(v) == ('iv_event', 'owner'))
 
-    def own_tr(e, S):
-        if S and e['ev'] == 'store':
+    def own_kills(e):
+        if e['ev'] == 'store':
             l = strip(e['lhs'])
             if l.get('k') == 'var':
-                return S - {l['name']}
+                return {l['name']}
             if last_member(e['lhs']) == ('iv_event', 'owner'):
-                return frozenset()
-        return S
+                return 'all'
+        return None
 
-    def own_edge(blk, si, S):
-        t = blk.term
-        if not t or t.get('cond') is None or len(blk.succ) != 2 or t.get('cls') in ('SwitchStmt', 'MethodDispatch'):
-            return S
-        for (op, lc, rc, l, r) in h.norm_cond(t['cond'], si == 0):
+    def own_facts(blk, si):
+        out = set()
+        for (op, lc, rc, l, r) in h.norm_cond(blk.term['cond'], si == 0):
             if op == '==' and isinstance(l, dict) and isinstance(r, dict):
                 if is_owner(l) and is_self(r):
-                    S = S | {canon(strip(l))}
+                    out.add(canon(strip(l)))
                 elif is_owner(r) and is_self(l):
-                    S = S | {canon(strip(r))}
-        return S
-    _, own_at = forward(g, frozenset(), own_tr, lambda a, b2: a & b2, edge=own_edge)
+                    out.add(canon(strip(r)))
+        return out
+    # (must-analysis over the feasible paths: the outcome of the comparison may be recorded in a local discriminator
+    # -- `kick = LOCAL; ... switch (kick)` -- and acted upon later: h.guarded_must)
+    own_at = h.guarded_must(g, own_facts, own_kills)
     fields = {}
     for b, blk in g.blocks.items():
         for i, e in enumerate(blk.events):
